@@ -23,7 +23,11 @@ def sym_event(sym, rng=None, k=0):
     if sym == "E":
         return {"k": "err", "id": "$ID", "code": [-32601, -32603, -32000, -32004, 17, 0][k % 6], "msg": f"boom{k}"}
     if sym == "Ed":
-        return {"k": "err", "id": "$ID", "code": -32602, "msg": "with data", "data": PAYLOADS[k % len(PAYLOADS)]}
+        # `data` of every shape, including one that looks like an error object itself (a relayed error)
+        # and one that looks like a whole JSON-RPC message: the code and message raised are the OUTER ones
+        datas = PAYLOADS + [{"code": -32601, "message": "Method not found"}, {"code": 5, "message": "inner", "data": {"code": 6}},
+                            {"jsonrpc": "2.0", "id": 1, "result": {"ok": True}}, {"error": {"code": -32000, "message": "nested"}}]
+        return {"k": "err", "id": "$ID", "code": [-32602, -32603, -32603, -32000, 17][k % 5], "msg": "with data", "data": datas[k % len(datas)]}
     if sym == "En":  # error object without message (stream-object level)
         return {"k": "err", "id": "$ID", "code": -32005}
     if sym == "Ec":  # error object without code
